@@ -130,7 +130,8 @@ package trzsz
 //@   ensures len(r0) == clen[recv][old(recvd)[recv]] && len(r0) > 0 && ref(r0) != 0
 //@   ensures cstart[recv][old(recvd)[recv] + 1] == cstart[recv][old(recvd)[recv]] + len(r0)
 //@   ensures forall j int {r0[j]} :: 0 <= j && j < len(r0) ==> r0[j] == G[recv][cstart[recv][old(recvd)[recv]] + j]
-//@   ensures ref(r0) != bufArr[recv.readBuf]
+//@   # a chunk handed over never shares its array with any line buffer's private storage
+//@   ensures forall q int {bufArr[q]} :: ref(r0) != bufArr[q]
 
 //@ func chan:trzszBuffer.bufCh.send trusted
 //@   requires len(p0) > 0
@@ -143,9 +144,16 @@ package trzsz
 //@     (b.nextBuf != nil && b.nextIdx < len(b.nextBuf) ==> \
 //@         len(b.nextBuf) == clen[b][recvd[b] - 1] && \
 //@         cstart[b][recvd[b]] == cstart[b][recvd[b] - 1] + len(b.nextBuf) && \
-//@         ref(b.nextBuf) != bufArr[b.readBuf] && ref(b.nextBuf) <= alloc() && \
+//@         (forall q int {bufArr[q]} :: ref(b.nextBuf) != bufArr[q]) && ref(b.nextBuf) <= alloc() && \
 //@         (forall j int {b.nextBuf[j]} :: 0 <= j && j < len(b.nextBuf) ==> \
 //@             b.nextBuf[j] == G[b][cstart[b][recvd[b] - 1] + j]))
+
+//@ # reading through buffer b writes only b's own line-buffer array (and fresh memory); every other
+//@ # line buffer keeps its array; no other buffer's receive count moves
+//@ pure bufFrame(b *trzszBuffer) bool = \
+//@     (forall r int {heap("byte")[r]} :: r != old(bufArr)[b.readBuf] && r <= old(alloc()) ==> heap("byte")[r] == old(heap("byte"))[r]) && \
+//@     (forall q int {bufArr[q]} :: bufArr[q] == old(bufArr)[q] || bufArr[q] > old(alloc())) && \
+//@     (forall o int {recvd[o]} :: o != b ==> recvd[o] == old(recvd)[o])
 
 //@ # absolute position of the next unread byte
 //@ pure cur(b *trzszBuffer) int = ite(b.nextBuf != nil && b.nextIdx < len(b.nextBuf), \
@@ -178,6 +186,7 @@ package trzsz
 //@ func trzszBuffer.readLine
 //@   requires tbWF(b)
 //@   assigns b.nextBuf, b.nextIdx, b.timeout, b.newTimeout, recvd, bufLen, bufCap, bufArr, elemsof("byte")
+//@   ensures bufFrame(b)
 //@   ensures tbWF(b)
 //@   ensures forall o int {recvd[o]} :: o != b ==> recvd[o] == old(recvd)[o]
 //@   # the cursor stops right after the line feed that ended the line; no Ctrl-C was passed over
@@ -192,6 +201,7 @@ package trzsz
 //@   # junk mode: a line never ends in the carriage return of a CR-LF wrap
 //@   ensures err == nil && mayHasJunk && len(r0) > 0 ==> r0[len(r0) - 1] != 13
 //@   loop 1
+//@     invariant bufFrame(b)
 //@     invariant tbWF(b) && cur(b) >= old(cur(b))
 //@     invariant forall o int {recvd[o]} :: o != b ==> recvd[o] == old(recvd)[o]
 //@     invariant forall q int {G[b][q]} :: old(cur(b)) <= q && q < cur(b) ==> G[b][q] != 3
@@ -205,6 +215,7 @@ package trzsz
 //@ func trzszBuffer.readBinary
 //@   requires tbWF(b)
 //@   assigns b.nextBuf, b.nextIdx, b.timeout, b.newTimeout, recvd, bufLen, bufCap, bufArr, elemsof("byte")
+//@   ensures bufFrame(b)
 //@   ensures tbWF(b)
 //@   ensures forall o int {recvd[o]} :: o != b ==> recvd[o] == old(recvd)[o]
 //@   # exactly size bytes, the next size bytes of the stream, whatever the chunking
@@ -212,6 +223,7 @@ package trzsz
 //@       (forall j int {r0[j]} :: 0 <= j && j < size ==> r0[j] == G[b][old(cur(b)) + j])
 //@   ensures err == nil && size < 0 ==> len(r0) == 0 && cur(b) == old(cur(b))
 //@   loop 1
+//@     invariant bufFrame(b)
 //@     invariant tbWF(b) && cur(b) >= old(cur(b))
 //@     invariant forall o int {recvd[o]} :: o != b ==> recvd[o] == old(recvd)[o]
 //@     invariant lineIs(b, old(cur(b)), cur(b) - old(cur(b)))
@@ -478,12 +490,15 @@ package trzsz
 //@ func trzszBuffer.readLineOnWindows
 //@   requires tbWF(b)
 //@   assigns b.nextBuf, b.nextIdx, b.timeout, b.newTimeout, recvd, bufLen, bufCap, bufArr, elemsof("byte")
+//@   ensures bufFrame(b)
 //@   ensures tbWF(b)
 //@   ensures [C16] err == nil ==> len(r0) > 0 && (forall j int {r0[j]} :: 0 <= j && j < len(r0) ==> isLetter(r0[j]))
 //@   loop 1
+//@     invariant bufFrame(b)
 //@     invariant tbWF(b)
 //@     invariant [C16] lineLetters(b)
 //@   loop 2
+//@     invariant bufFrame(b)
 //@     invariant tbWF(b)
 //@     invariant [C16] lineLetters(b)
 //@     invariant [C16] 0 <= i && i <= len(buf)
@@ -958,4 +973,97 @@ package trzsz
 //@   nilable p
 //@   requires p != nil ==> p.colorA == nil || p.colorB == nil
 //@   ensures p != nil ==> pbWF(p)
+//@ end
+
+// ===========================================================================
+// C14  a relay only narrows what the two ends negotiate (relay.go)
+// ===========================================================================
+
+//@ func decodeRelayBufferString
+//@   assigns wlog, wlen
+//@   ensures nothingSent()
+//@ end
+//@ # C13: the handshake consumes exactly one line from the parked stream (cursor contract of C03)
+//@ func recvStringFromBuffer
+//@   requires tbWF(buffer)
+//@   ensures bufFrame(buffer)
+//@   assigns fields(buffer), recvd, bufLen, bufCap, bufArr, elemsof("byte"), wlog, wlen
+//@   ensures tbWF(buffer) && nothingSent()
+//@ end
+//@ func recvStringForWindows
+//@   requires tbWF(buffer)
+//@   ensures bufFrame(buffer)
+//@   assigns fields(buffer), recvd, bufLen, bufCap, bufArr, elemsof("byte"), wlog, wlen
+//@   ensures tbWF(buffer) && nothingSent()
+//@ end
+//@ pure relayBufs(r *TrzszRelay) bool = r.stdinBuffer != nil && r.stdoutBuffer != nil && r.stdinBuffer != r.stdoutBuffer && \
+//@     tbWF(r.stdinBuffer) && tbWF(r.stdoutBuffer) && r.trigger != nil
+//@ func TrzszRelay.recvStringFromClient
+//@   requires relayBufs(r)
+//@   assigns fields(r.stdinBuffer), recvd, bufLen, bufCap, bufArr, elemsof("byte"), wlog, wlen
+//@   ensures relayBufs(r) && nothingSent()
+//@ end
+//@ func TrzszRelay.recvStringFromServer
+//@   requires relayBufs(r)
+//@   assigns fields(r.stdoutBuffer), recvd, bufLen, bufCap, bufArr, elemsof("byte"), wlog, wlen
+//@   ensures relayBufs(r) && nothingSent()
+//@ end
+//@ func TrzszRelay.recvAction
+//@   requires relayBufs(r)
+//@   assigns fields(r.stdinBuffer), recvd, bufLen, bufCap, bufArr, elemsof("byte"), wlog, wlen
+//@   ensures relayBufs(r)
+//@   ensures r1 == nil ==> r0 != nil && r0 > old(alloc())
+//@ end
+//@ func TrzszRelay.recvConfig
+//@   requires relayBufs(r)
+//@   assigns fields(r.stdoutBuffer), recvd, bufLen, bufCap, bufArr, elemsof("byte"), wlog, wlen
+//@   ensures relayBufs(r)
+//@   ensures r1 == nil ==> r0 != nil && r0 > old(alloc())
+//@ end
+
+//@ # What the relay forwards is what it received, except: binary mode is switched off unless a tunnel
+//@ # is connected (never switched on), the protocol version is lowered to what the relay understands
+//@ # (never raised), the tmux junk flag is OR-ed with the relay's own tmux mode, and a missing pane
+//@ # width is filled in. Every other field is passed on unchanged.
+//@ func TrzszRelay.handshake
+//@   requires relayBufs(r)
+//@   before TrzszRelay.sendAction assert [C14] p0 == result_of("TrzszRelay.recvAction", 0, 0) && \
+//@       (p0.SupportBinary ==> p0.TunnelConnected && after("TrzszRelay.recvAction", 0, p0.SupportBinary)) && \
+//@       p0.Protocol <= kProtocolVersion && p0.Protocol <= after("TrzszRelay.recvAction", 0, p0.Protocol) && \
+//@       (after("TrzszRelay.recvAction", 0, p0.Protocol) <= kProtocolVersion ==> p0.Protocol == after("TrzszRelay.recvAction", 0, p0.Protocol))
+//@   before TrzszRelay.sendAction assert [C14] same(p0.Lang, after("TrzszRelay.recvAction", 0, p0.Lang)) && \
+//@       same(p0.Version, after("TrzszRelay.recvAction", 0, p0.Version)) && \
+//@       p0.Confirm == after("TrzszRelay.recvAction", 0, p0.Confirm) && \
+//@       same(p0.Newline, after("TrzszRelay.recvAction", 0, p0.Newline)) && \
+//@       p0.SupportDirectory == after("TrzszRelay.recvAction", 0, p0.SupportDirectory) && \
+//@       p0.TunnelConnected == after("TrzszRelay.recvAction", 0, p0.TunnelConnected) && \
+//@       p0.SupportFork == after("TrzszRelay.recvAction", 0, p0.SupportFork)
+//@   before TrzszRelay.sendConfig assert [C14] p0 == result_of("TrzszRelay.recvConfig", 0, 0) && \
+//@       p0.TmuxOutputJunk == (after("TrzszRelay.recvConfig", 0, p0.TmuxOutputJunk) || r.tmuxMode == tmuxNormalMode) && \
+//@       p0.TmuxPaneColumns == ite(after("TrzszRelay.recvConfig", 0, p0.TmuxPaneColumns) <= 0 && r.tmuxPaneWidth > 0, \
+//@           r.tmuxPaneWidth, after("TrzszRelay.recvConfig", 0, p0.TmuxPaneColumns))
+//@   before TrzszRelay.sendConfig assert [C14] p0.Quiet == after("TrzszRelay.recvConfig", 0, p0.Quiet) && \
+//@       p0.Binary == after("TrzszRelay.recvConfig", 0, p0.Binary) && \
+//@       p0.Directory == after("TrzszRelay.recvConfig", 0, p0.Directory) && \
+//@       p0.Overwrite == after("TrzszRelay.recvConfig", 0, p0.Overwrite) && \
+//@       p0.Timeout == after("TrzszRelay.recvConfig", 0, p0.Timeout) && \
+//@       same(p0.Newline, after("TrzszRelay.recvConfig", 0, p0.Newline)) && \
+//@       p0.Protocol == after("TrzszRelay.recvConfig", 0, p0.Protocol) && \
+//@       p0.MaxBufSize == after("TrzszRelay.recvConfig", 0, p0.MaxBufSize) && \
+//@       p0.EscapeTable == after("TrzszRelay.recvConfig", 0, p0.EscapeTable) && \
+//@       p0.CompressType == after("TrzszRelay.recvConfig", 0, p0.CompressType) && \
+//@       p0.Fork == after("TrzszRelay.recvConfig", 0, p0.Fork)
+//@ end
+
+//@ func TrzszRelay.sendStringToClient
+//@   assigns wlog, wlen
+//@ end
+//@ func TrzszRelay.sendStringToServer
+//@   assigns wlog, wlen
+//@ end
+//@ func TrzszRelay.sendAction
+//@   assigns wlog, wlen
+//@ end
+//@ func TrzszRelay.sendConfig
+//@   assigns wlog, wlen
 //@ end
